@@ -12,7 +12,10 @@
 
 use std::{
     cell::RefCell,
-    sync::{Arc, Condvar, Mutex},
+    sync::{
+        atomic::{AtomicUsize, Ordering},
+        Arc, Condvar, Mutex,
+    },
     time::Duration,
 };
 
@@ -52,7 +55,13 @@ pub struct Sched {
     cv: Condvar,
     /// worker `t` waits on `wcv[t]` (one wake-up per hand-over instead of a broadcast)
     wcv: Vec<Condvar>,
+    /// mirror of `turn` (`usize::MAX` = scheduler) for a short optimistic spin before blocking:
+    /// a hand-over then usually costs no futex round trip
+    hint: AtomicUsize,
 }
+
+const SCHED: usize = usize::MAX;
+const SPIN: usize = 4000;
 
 thread_local! {
     static CUR: RefCell<Option<(Arc<Sched>, usize)>> = const { RefCell::new(None) };
@@ -66,12 +75,19 @@ impl Sched {
             m: Mutex::new(Inner { turn: None, st: vec![St::Running; n] }),
             cv: Condvar::new(),
             wcv: (0..n).map(|_| Condvar::new()).collect(),
+            hint: AtomicUsize::new(SCHED),
         })
     }
 
     /// Scheduler: wait until no worker is running; returns the status of every worker.
     /// `Err` if a worker stays in real code for a minute (it is stuck outside a yield point).
     pub fn quiesce(&self) -> Result<Vec<St>, String> {
+        for _ in 0..SPIN {
+            if self.hint.load(Ordering::Acquire) == SCHED {
+                break;
+            }
+            std::hint::spin_loop();
+        }
         let mut g = self.m.lock().unwrap();
         loop {
             if g.turn.is_none() && g.st.iter().all(|s| *s != St::Running) {
@@ -93,6 +109,7 @@ impl Sched {
             assert!(matches!(g.st[t], St::AtYield(_)), "grant to a non-parked worker");
             g.st[t] = St::Running;
             g.turn = Some(t);
+            self.hint.store(t, Ordering::Release);
             self.wcv[t].notify_one();
         }
         let st = self.quiesce()?;
@@ -115,8 +132,17 @@ impl Sched {
         g.st[t] = st;
         if g.turn == Some(t) {
             g.turn = None;
+            self.hint.store(SCHED, Ordering::Release);
         }
         self.cv.notify_one();
+        drop(g);
+        for _ in 0..SPIN {
+            if self.hint.load(Ordering::Acquire) == t {
+                break;
+            }
+            std::hint::spin_loop();
+        }
+        let mut g = self.m.lock().unwrap();
         while g.turn != Some(t) {
             g = self.wcv[t].wait(g).unwrap();
         }
@@ -127,6 +153,7 @@ impl Sched {
         g.st[t] = st;
         if g.turn == Some(t) {
             g.turn = None;
+            self.hint.store(SCHED, Ordering::Release);
         }
         self.cv.notify_one();
     }
